@@ -49,10 +49,17 @@ rec["confirmed"] = confirmed
 print("confirmed:", confirmed, json.dumps(rec["ran"])[:600])
 if confirmed:
     rec["checks"] = {}
-    rc, out = sh(f"git -C /repo apply {cand}/patch.diff")
+    # SEED_VIA_WORKTREE=1: the change is applied to a scratch worktree and the checks are pointed at it with
+    # VERIF_REPO, so that /repo itself is not touched (needed while another pass is reading /repo)
+    via = os.environ.get("SEED_VIA_WORKTREE")
+    target = "/repo"
+    if via:
+        target = f"/tmp/seedwt_{os.getpid()}"
+        sh(f"git -C /repo worktree add -q --detach {target} HEAD")
+    rc, out = sh(f"git -C {target} apply {cand}/patch.diff")
     try:
         for pid in pids:
-            rc, out = sh(f"cd /verif && timeout 1500 ./check {pid} --tier quick 2>&1 | tail -8")
+            rc, out = sh(f"cd /verif && VERIF_REPO={target} timeout 1500 ./check {pid} --tier quick 2>&1 | tail -8")
             viol = [l for l in out.splitlines() if l.startswith("VIOLATION")]
             rec["checks"][pid] = {"detected": bool(viol), "lines": viol[:3], "summary": out.splitlines()[-1][-300:]}
             if viol:
@@ -63,7 +70,10 @@ if confirmed:
                     rec["checks"][pid]["what"] = (rp.get("what") or "")[:300]
             print(pid, rec["checks"][pid])
     finally:
-        sh("git -C /repo checkout -- .")
+        if via:
+            sh(f"git -C /repo worktree remove --force {target}")
+        else:
+            sh("git -C /repo checkout -- .")
     d = Path("/verif/seeded") / name
     d.mkdir(parents=True, exist_ok=True)
     shutil.copy(cand / "patch.diff", d / "patch.diff")
